@@ -58,6 +58,9 @@ CAUSES["C04"] = [
 ]
 
 
+CAUSES["C04"].append((("step/getter_vars/DCMotor",), "motor.get_speed() / get_applied_speed() stored in a variable: the variable is declared int, so the float speed is truncated (the same query printed directly is right)"))
+
+
 CAUSES["C05"] = [
     (("split/rebind_servo",), "a Servo name bound in the prologue and bound again to another pin at the top of the loop body keeps driving the first pin: the second declaration is ignored (one name-keyed Servo object, attached once)"),
     (("split/led_in_loop_stateful",), "a device declared at the top of the loop body keeps its state across passes on the device; Python re-creates the object (state reset) every pass"),
